@@ -30,7 +30,7 @@ class C12(InvProp):
     rule = ("op inventory with 2-10 nodes sharing classes (references, layered keys, failing nodes), each case run in separate "
             "harness processes with RAYON_NUM_THREADS in {1,2,3,4,8,16} (twice each) and, on one instance, with node renders "
             "repeated in shuffled orders interleaved with whole-inventory renders; every observation must equal the first and "
-            "the model's. Non-trivial = >=3 nodes; distinct by input hash.")
+            "the model's. some cases have 20-50 nodes so that one rayon job renders several nodes. Non-trivial = >=3 nodes; distinct by input hash.")
     explanation = ("Schedules are explored, not enumerated: 6 thread counts x 2 runs per case, plus shuffled repetition on one "
                    "instance. The proved part is the aggregation law (any permutation of per-node results gives the same "
                    "inventory) and that the model's renderNode is a function; absence of shared mutable state in the Rust code is "
@@ -50,7 +50,7 @@ class C12(InvProp):
         out = []
         # every node enables its own application and negates everybody else's: a pending negation
         # left behind by one render must never reach another node
-        for n in (3, 8):
+        for n in (3, 8, 40):
             files = [{"path": "nodes/d%d.yml" % i, "content": {"applications": ["app%d" % i] + ["~app%d" % j for j in range(n) if j != i]}} for i in range(n)]
             out.append({"op": "inventory", "config": {}, "files": files, "repeat": 2})
         files = [{"path": "classes/neg.yml", "content": {"applications": ["~shared", "~other"]}},
@@ -72,6 +72,16 @@ class C12(InvProp):
                                  node_dirs=r.chance(1, 2), compose=r.chance(1, 2))
             c["repeat"] = 2 if tier == "quick" else 4
             c["repeat_seed"] = r.below(1 << 30)
+            if i % 6 == 1:
+                # many more nodes than worker threads, so that one rayon job renders several nodes
+                extra = r.range(20, 50)
+                base_nodes = [f for f in c["files"] if f["path"].startswith("nodes/")]
+                for k in range(extra):
+                    src = base_nodes[k % len(base_nodes)] if base_nodes else {"content": {}}
+                    cont = dict(src["content"])
+                    cont["applications"] = ["big%d" % k] + ["~big%d" % ((k + d) % extra) for d in (1, 2, 3)]
+                    c["files"].append({"path": "nodes/x%02d.yml" % k, "content": cont})
+                c["repeat"] = 1
             if i % 2 == 0:
                 # cross-node application negations
                 nodes = [f for f in c["files"] if f["path"].startswith("nodes/")]
